@@ -305,7 +305,72 @@ def stages(which):
     return out
 
 
+def plots_shard(ctx):
+    """Every stage that takes plot=...: with all of its diagnostic plots requested (non-interactive
+    backend) it returns bit for bit what it returns without, and leaves its input arrays alone."""
+    import dask
+    import matplotlib.pyplot as plt
+    from nuspacesim.config import NssConfig, Simulation
+    from nuspacesim.simulation.eas_optical.eas import EAS
+    from nuspacesim.simulation.geometry.region_geometry import RegionGeom, RegionGeomToO
+    from nuspacesim.simulation.spectra.spectra import Spectra
+    from nuspacesim.simulation.taus.taus import Taus
+    from nuspacesim.utils.plot_function_registry import registry
+
+    inject.require_safe()
+    rng = ctx.subrng("c11-plots")
+    names = sorted(registry)
+    cfg = NssConfig()
+    cp = NssConfig()
+    cp.simulation.spectrum = Simulation.PowerSpectrum(index=2.2, lower_bound=7.0, upper_bound=11.0)
+    ct = NssConfig()
+    ct.simulation.mode = "Target"
+    n = 300
+    b = rng.uniform(0.002, 0.7, n)
+    le = rng.uniform(6.5, 11.5, n)
+    ne = 24
+    ev = (rng.uniform(0.02, 0.7, ne), rng.uniform(0, 12, ne), 10 ** rng.uniform(-1, 2, ne), rng.uniform(-1, 1, ne), rng.uniform(-3, 3, ne))
+    cases = [
+        ("RegionGeom.__call__", lambda: RegionGeom(cfg), lambda o, kw: o(400, **kw), ()),
+        ("RegionGeomToO.__call__", lambda: RegionGeomToO(ct), lambda o, kw: o(600, **kw)[:3], ()),
+        ("Spectra[mono]", lambda: Spectra(cfg), lambda o, kw: o(500, **kw), ()),
+        ("Spectra[power law]", lambda: Spectra(cp), lambda o, kw: o(500, **kw), ()),
+        ("Taus.__call__", lambda: Taus(cfg), lambda o, kw, b_, le_: o(b_, le_, **kw), (b, le)),
+        ("EAS.__call__", lambda: EAS(cfg), lambda o, kw, *a: o(*a, **kw), ev),
+    ]
+    for name, make, call, arrs in cases:
+        outs = []
+        for kw in ({}, {"plot": names}):
+            a_ = [x.copy() for x in arrs]
+            a0 = [x.copy() for x in a_]
+            np.random.seed(4242)
+            try:
+                with dask.config.set(scheduler="synchronous"), contextlib.redirect_stdout(io.StringIO()):
+                    r = call(make(), kw, *a_)
+            except Exception as e:
+                ctx.exception("raises", f"{name}: raised with {'the diagnostic plots requested' if kw else 'no plot'}", e, {"stage": name, "plots": bool(kw)})
+                outs = None
+                break
+            finally:
+                plt.close("all")
+            if any(x.tobytes() != y.tobytes() for x, y in zip(a_, a0)):
+                j = [i for i, (x, y) in enumerate(zip(a_, a0)) if x.tobytes() != y.tobytes()][0]
+                ctx.violation("immutable", f"{name}: input array #{j} was modified by the call{' with the diagnostic plots requested' if kw else ''}", {"stage": name, "argument": j, "plots": bool(kw)})
+            outs.append(tuple(np.array(v, copy=True) for v in (r if isinstance(r, tuple) else (r,))))
+        if outs is None:
+            continue
+        ctx.count("plots", 1)
+        ctx.distinct.add(("plots", name))
+        bad = [i for i, (p_, q_) in enumerate(zip(outs[0], outs[1])) if not eq(p_, q_)]
+        if bad or len(outs[0]) != len(outs[1]):
+            k = bad[0] if bad else 0
+            ctx.violation("repeat", f"{name}: with the diagnostic plots {names} requested output #{k} differs from the call without plots: {first_diff(outs[1][k], outs[0][k]) if bad else 'number of outputs'}", {"stage": name, "output": k, "plots": names})
+
+
 def shard(ctx, si, payload):
+    if payload["which"] == "plots":
+        plots_shard(ctx)
+        return
     if payload["which"] in ("optical",):
         inject.require_safe()
     rng = ctx.subrng("c11", payload["which"])
@@ -318,14 +383,14 @@ def shard(ctx, si, payload):
 
 def run(ctx):
     T = ctx.thorough()
-    P = [{"which": w, "nperm": 4 if not T else 20, "nrep": 2 if not T else 5} for w in ("geom", "too", "tau", "decay", "optical", "radio")]
+    P = [{"which": w, "nperm": 4 if not T else 20, "nrep": 2 if not T else 5} for w in ("geom", "too", "tau", "decay", "optical", "radio", "plots")]
     if not T:
         for p in P:
             if p["which"] == "optical":
                 p["small"] = 101
                 p["nperm"] = 2
     core.run_shards(ctx, "nssmon.checks.c11", "shard", P, workers=len(P), timeout=ctx.pick(900, 5000))
-    for m in ("permutation", "split", "repeat", "immutable", "single"):
+    for m in ("permutation", "split", "repeat", "immutable", "single", "plots"):
         ctx.require(m)
     if len(ctx.obs.get("stages_driven", [])) < 17:
         ctx.inconclusive_because(f"only {len(ctx.obs.get('stages_driven', []))} of 17 stage adapters were driven")
